@@ -1,4 +1,5 @@
 import MidoProofs.SrcTie.Ports
+import MidoProofs.SrcTie.PortsLifecycle
 #print axioms Mido.src_port_send
 #print axioms Mido.src_reset_loop
 #print axioms Mido.src_port_reset
@@ -8,3 +9,4 @@ import MidoProofs.SrcTie.Ports
 #print axioms Mido.src_port_poll
 #print axioms Mido.src_iter_pending_loop
 #print axioms Mido.src_port_iter_pending
+#print axioms Mido.src_close_idem
